@@ -658,6 +658,8 @@ func TestC13(t *testing.T) {
 			c13outage(rep, seed, job)
 			c13pendingClose(rep, seed, job)
 			c13udpPeerFlap(rep, seed, job)
+			c13slowLink(rep, seed, job)
+			c13tcpLingeringClose(rep, seed, job, i%2 == 1)
 		}
 	}
 	gomavlib.VerifSetHook(nil)
@@ -1280,4 +1282,180 @@ func smallRcvBuf(network, address string, c syscall.RawConn) error {
 	return c.Control(func(fd uintptr) {
 		_ = syscall.SetsockoptInt(int(fd), syscall.SOL_SOCKET, syscall.SO_RCVBUF, 4096)
 	})
+}
+
+// c13slowLink: a link that still takes output, but slowly (every transport Write lasts d), is offered more than it can
+// carry. The application writes to all channels in lock-step with a fast link: the next item is written as soon as the
+// fast link has the previous one. Logical oracle: the number of items the slow link has taken by the time the fast link has
+// all N. If the slow link lost (nearly) nothing although the flow overran its backlog, every write waited for it: the
+// node advanced at the slow link's pace. Judged only after a second run with a four times slower link shows the same.
+func c13slowLink(rep *vh.Report, seed uint64, idx int) {
+	if aborted() {
+		return
+	}
+	r := vh.Sub(seed, fmt.Sprintf("c13-slowlink-%d", idx))
+	hookReset(r.U64(), false, false)
+	run := func(d time.Duration, N int) (m int, elapsed time.Duration, ok bool) {
+		slow, fast := fake.NewTransport("slow"), fake.NewTransport("fast")
+		node := &gomavlib.Node{Endpoints: []gomavlib.EndpointConf{gomavlib.EndpointCustom{ReadWriteCloser: slow}, gomavlib.EndpointCustom{ReadWriteCloser: fast}},
+			Dialect: testDialect, OutVersion: gomavlib.V2, OutSystemID: 21, HeartbeatDisable: true}
+		if err := node.Initialize(); err != nil {
+			rep.HarnessError(err.Error())
+			return 0, 0, false
+		}
+		cons := newConsumer(rep, "C13", "custom", node)
+		cons.start()
+		if !cons.waitOpen(2, 2*time.Second) {
+			rep.HarnessError("channels did not open")
+			safeClose(rep, node)
+			return 0, 0, false
+		}
+		slow.OnWrite(func(*fake.WriteRec) { time.Sleep(d) })
+		arrived := make(chan struct{}, N+8)
+		fast.OnWrite(func(*fake.WriteRec) { arrived <- struct{}{} })
+		t0 := time.Now()
+		ok = true
+		for i := 0; i < N && ok; i++ {
+			_ = node.WriteMessageAll(&MessageVfUid{Uid: uint64(0xD7)<<56 | uint64(i+1)})
+			select {
+			case <-arrived:
+			case <-time.After(3 * time.Second):
+				rep.Violation("what=lost ep=custom", fmt.Sprintf("item %d written to all channels did not reach the healthy link within 3 s while another link was slow (%v per write)", i, d), nil)
+				ok = false
+			}
+		}
+		elapsed = time.Since(t0)
+		m = slow.NWrites()
+		slow.OnWrite(nil)
+		if !safeClose(rep, node) {
+			return m, elapsed, false
+		}
+		<-cons.done
+		return m, elapsed, ok
+	}
+	N := 300
+	m, el, ok := run(5*time.Millisecond, N)
+	if !ok {
+		return
+	}
+	rep.Eval(1)
+	rep.Count("slow_link_runs", 1)
+	rep.Count("slow_link_items_taken_while_fast_link_took_300", m)
+	rep.Distinct("slowlink", idx)
+	if m < N-70 {
+		return
+	}
+	m2, el2, ok := run(20*time.Millisecond, N)
+	if !ok {
+		return
+	}
+	if m2 >= N-70 {
+		rep.Violation("what=delay:slow-link ep=custom", fmt.Sprintf("%d items were written to all channels in lock-step with a fast link while another link took %v (then %v) per write: the slow link lost next to nothing (%d and %d items taken, backlog bound 64) and the runs lasted %v and %v - every write waited for the slow link",
+			N, 5*time.Millisecond, 20*time.Millisecond, m, m2, el.Round(time.Millisecond), el2.Round(time.Millisecond)), nil)
+	}
+}
+
+// c13tcpLingeringClose: a TCP peer has stopped reading (output sits unsent in the socket) while the node's write timeout
+// is several seconds long; then the peer half-closes, or the link's idle... the read side ends. The channel's closure
+// must not wait for the unsent output: the close event is due at once (bound: half the write timeout; it takes
+// about a millisecond).
+func c13tcpLingeringClose(rep *vh.Report, seed uint64, idx int, asClient bool) {
+	if aborted() {
+		return
+	}
+	r := vh.Sub(seed, fmt.Sprintf("c13-tcplinger-%d", idx))
+	hookReset(r.U64(), false, false)
+	port := freeTCPPort()
+	wt := 3 * time.Second
+	var ep gomavlib.EndpointConf = gomavlib.EndpointTCPServer{Address: fmt.Sprintf("127.0.0.1:%d", port)}
+	var ln net.Listener
+	if asClient {
+		var err error
+		ln, err = (&net.ListenConfig{Control: smallRcvBuf}).Listen(context.Background(), "tcp4", fmt.Sprintf("127.0.0.1:%d", port))
+		if err != nil {
+			rep.Inconclusive("C13 tcp lingering close: " + err.Error())
+			return
+		}
+		defer ln.Close()
+		ep = gomavlib.EndpointTCPClient{Address: fmt.Sprintf("127.0.0.1:%d", port)}
+	}
+	node := &gomavlib.Node{Endpoints: []gomavlib.EndpointConf{ep}, Dialect: testDialect, OutVersion: gomavlib.V2, OutSystemID: 22, HeartbeatDisable: true,
+		WriteTimeout: wt, IdleTimeout: 30 * time.Second}
+	if err := node.Initialize(); err != nil {
+		rep.Inconclusive("C13 tcp lingering close: " + err.Error())
+		return
+	}
+	cons := newConsumer(rep, "C13", "tcp", node)
+	var closedAt int64
+	cons.onEvent = func(e *evRec, ci *chanInfo) {
+		if e.Type == "close" && atomic.LoadInt64(&closedAt) == 0 {
+			atomic.StoreInt64(&closedAt, time.Now().UnixNano())
+		}
+	}
+	cons.start()
+	var conn net.Conn
+	var err error
+	if asClient {
+		conn, err = ln.Accept()
+	} else {
+		conn, err = (&net.Dialer{Control: smallRcvBuf}).Dial("tcp4", fmt.Sprintf("127.0.0.1:%d", port))
+	}
+	if err != nil {
+		safeClose(rep, node)
+		return
+	}
+	defer conn.Close()
+	if !cons.waitOpen(1, 2*time.Second) {
+		rep.Inconclusive("C13 tcp lingering close: the channel did not open")
+		safeClose(rep, node)
+		return
+	}
+	ch := cons.openChannels()[0].Ch
+	big := make([]byte, 250)
+	for i := range big {
+		big[i] = byte(1 + i%250)
+	}
+	// the peer is silent: output until the writer is held up by the socket (items wait and nothing is taken from the queue)
+	held := false
+	lastDeq, lastDeqAt := -1, time.Now()
+	for start := time.Now(); time.Since(start) < 2*time.Second && !held; {
+		for k := 0; k < 50; k++ {
+			sp := &ref.FrameSpec{Version: 2, Sys: 9, Comp: 1, MsgID: 5000, Payload: append([]byte(nil), big...)}
+			ref.Seal(sp, uidLayout.CRCExtra, nil)
+			_ = node.WriteFrameTo(ch, &frame.V2Frame{SystemID: 9, ComponentID: 1, Checksum: sp.Checksum, Message: &message.MessageRaw{ID: 5000, Payload: sp.Payload}})
+		}
+		time.Sleep(time.Millisecond)
+		deq := hookHits()["ch.writer.dequeue"]
+		if deq != lastDeq || ch.VerifBacklog() == 0 {
+			lastDeq, lastDeqAt = deq, time.Now()
+		} else if time.Since(lastDeqAt) > 100*time.Millisecond {
+			held = true
+		}
+	}
+	if !held {
+		rep.Inconclusive("C13 tcp lingering close: the socket took 2 s of output without holding the writer up")
+		safeClose(rep, node)
+		return
+	}
+	// the peer ends its side of the connection (it still does not read)
+	t0 := time.Now()
+	if tc, ok := conn.(*net.TCPConn); ok {
+		_ = tc.CloseWrite()
+	}
+	waitFor(func() bool { return atomic.LoadInt64(&closedAt) != 0 }, func() int64 { return 0 }, wt+2*time.Second)
+	rep.Eval(1)
+	rep.Count("tcp_closures_with_unsent_output_and_long_write_timeout", 1)
+	rep.Distinct("tcplinger", idx, asClient)
+	ca := atomic.LoadInt64(&closedAt)
+	switch {
+	case ca == 0:
+		rep.Violation("what=mute-open ep=tcp", fmt.Sprintf("a TCP channel whose peer had stopped reading and then ended its side was not reported closed within %v", wt+2*time.Second), nil)
+	case time.Unix(0, ca).Sub(t0) > wt/2:
+		rep.Violation("what=close-late ep=tcp", fmt.Sprintf("a TCP channel with unsent output in its socket (peer not reading, write timeout %v) was reported closed %v after its peer ended the connection: the closure waited for the output",
+			wt, time.Unix(0, ca).Sub(t0).Round(time.Millisecond)), map[string]interface{}{"as_client": asClient})
+	}
+	if !safeClose(rep, node) {
+		return
+	}
+	<-cons.done
 }
